@@ -1,10 +1,11 @@
 (* C14 — A property is an atomic, typed register with validated writes and change events.
    Property theorems only; model: theories/Property.v, proofs: theories/PropertyProofs.v,
    linearizability machinery: theories/Lin.v, LinProofs.v; the subscriber table (registerEvent /
-   unregisterEvent with client-chosen user ids): theories/PropertySubs.v, PropertySubsProofs.v.  Every theorem holds for every
+   unregisterEvent with client-chosen user ids): theories/PropertySubs.v, PropertySubsProofs.v; objects with
+   several properties (one table, one register per property): theories/PropertyMulti.v, PropertyMultiProofs.v.  Every theorem holds for every
    implementor-side validator [valid]. *)
 From Coq Require Import NArith List String Permutation.
-From QV Require Import Bytes Property PropertyProofs Lin LinProofs PropertySubs PropertySubsProofs.
+From QV Require Import Bytes Property PropertyProofs Lin LinProofs PropertySubs PropertySubsProofs PropertyMulti PropertyMultiProofs.
 Import ListNotations.
 Local Open Scope N_scope.
 
@@ -141,6 +142,53 @@ Theorem C14_subs_id_collision_example : srun_out pcfg_clean nonneg sinit ex_sops
   /\ snd (srun pcfg_clean nonneg sinit [] ex_sops) = [mk_reg 1 42 boom_uid 3; mk_reg 0 42 prop_uid 11].
 Proof. exact ex_sseq. Qed.
 Print Assumptions C14_subs_id_collision_example.
+
+(* ---- an object with several properties: one register per declared property (PropertyMulti.v) ---- *)
+
+(* an operation acts on the register its name resolves to exactly as the one-property register above
+   does — same answer, same events — and every OTHER property of the object keeps its value and its
+   subscribers: a write to one property (accepted or not) never changes what another property reads *)
+Theorem C14_multi_operation_is_local : forall t c valid ms o k po, List.length ms = List.length t ->
+  localize t o = Some (k, po) ->
+  let '(s1, r, ev) := pstep c valid (mreg ms k) po in
+  let '(ms', r', ev') := mstep t c valid ms o in
+  r' = r /\ ev' = map (fun e => (uid_of t k, e)) ev /\ mreg ms' k = s1 /\
+  List.length ms' = List.length t /\
+  forall j, j <> k -> mreg ms' j = mreg ms j.
+Proof. exact mstep_local. Qed.
+Print Assumptions C14_multi_operation_is_local.
+Theorem C14_multi_unknown_name_fails : forall t c valid ms o, localize t o = None ->
+  mstep t c valid ms o = (ms, RFail, []).
+Proof. exact mstep_unresolved. Qed.
+Print Assumptions C14_multi_unknown_name_fails.
+
+(* after ANY sequence of operations on the object, the register of property k is what the operations
+   addressed to k alone make of it; so reading a property returns the last accepted write of THAT
+   property, whatever was written to the others in between *)
+Theorem C14_multi_register_is_its_own_history : forall t c valid ops ms k, List.length ms = List.length t ->
+  mreg (fst (mrun t c valid ms ops)) k = fst (prun c valid (mreg ms k) (ops_for t k ops)).
+Proof. exact mrun_projection. Qed.
+Print Assumptions C14_multi_register_is_its_own_history.
+Theorem C14_multi_read_returns_last_accepted_write_of_that_property : forall t c valid ops n k,
+  idx_name t n = Some k ->
+  snd (fst (mstep t c valid (fst (mrun t c valid (minit t) ops)) (MGet (NmStr n)))) =
+    match last_accepted c valid None (ops_for t k ops) with Some v => RVal v | None => RFail end.
+Proof. exact mread_last_accepted. Qed.
+Print Assumptions C14_multi_read_returns_last_accepted_write_of_that_property.
+
+(* the checker applied to the recorded histories of such an object decides linearizability with
+   respect to the family of registers; executed: UpdateA(1) ; UpdateA(2) overlapping UpdateB(2), both
+   accepted ; then a = 2, b = 2 is linearizable and a = 1 (the accepted write to a lost because another
+   property was written at the same time) is not *)
+Theorem C14_multi_checker_sound_complete : forall t c valid init (h : list (orec mop pres)),
+  lin_check (mrstep t c valid) pres_eqb init h = true <-> linearizable (mrstep t c valid) init h.
+Proof. exact mlin_check_iff. Qed.
+Print Assumptions C14_multi_checker_sound_complete.
+Theorem C14_multi_lost_write_example :
+  linearizable (mrstep ex_table pcfg_clean nonneg) (minit ex_table) (ex_hist 2) /\
+  ~ linearizable (mrstep ex_table pcfg_clean nonneg) (minit ex_table) (ex_hist 1).
+Proof. exact ex_lost_write. Qed.
+Print Assumptions C14_multi_lost_write_example.
 
 (* ---- the pinned code: a wrongly-typed value whose bytes decode is accepted and stored as is ---- *)
 Theorem C14_refuted_store_untyped :
